@@ -224,9 +224,16 @@ struct StepObs<'a> {
     sp: &'a StepProp,
     cov: &'a mut Coverage,
     judged: u64,
-    pre_screen: Option<Screen>,
+    /// C20: a second real screen that receives every operation, with identity G0/G1 forced
+    /// after each of them and draws replaced by draws of the reference translation
+    twin: Option<Screen>,
+    twin_prev: Option<Snapshot>,
     /// C20: charset-related events the parser delivered (Feeder actor only), in order
     parser_charset_events: Vec<Op>,
+    /// C14: the history oracle - the stack of cursor states as DECSC saw them. Only DECSC and
+    /// DECRC may change the real stack; every other operation (resize included, which pushes
+    /// and pops a savepoint itself) must leave it exactly as it was.
+    shadow: Vec<crate::snap::SaveSnap>,
 }
 
 fn which_table(t: &[char; 256]) -> u64 {
@@ -441,6 +448,76 @@ fn c20_parser_path(trace: &Trace, delivered: &[Op], cov: &mut Coverage) -> Resul
     Ok(())
 }
 
+fn save_snaps(s: &Screen) -> Vec<crate::snap::SaveSnap> {
+    s.savepoints
+        .iter()
+        .map(|p| crate::snap::SaveSnap {
+            x: p.cursor.x,
+            y: p.cursor.y,
+            attr: p.cursor.attr.clone(),
+            hidden: p.cursor.hidden,
+            g0: p.g0_charset,
+            g1: p.g1_charset,
+            charset: if p.charset == Charset::G0 { 0 } else { 1 },
+            origin: p.origin,
+            wrap: p.wrap,
+        })
+        .collect()
+}
+
+impl<'a> StepObs<'a> {
+    fn c14_shadow(&mut self, ctx: &StepCtx, low: &Op) -> Result<(), Violation> {
+        match low {
+            Op::SaveCursor => {
+                // ctx.pre is valid here (owned operation): push what DECSC must have captured
+                let p = ctx.pre;
+                self.shadow.push(crate::snap::SaveSnap {
+                    x: p.x,
+                    y: p.y,
+                    attr: p.attr.clone(),
+                    hidden: p.hidden,
+                    g0: p.g0,
+                    g1: p.g1,
+                    charset: p.charset,
+                    origin: p.has(memterm::modes::DECOM),
+                    wrap: p.has(memterm::modes::DECAWM),
+                });
+            }
+            Op::RestoreCursor => {
+                self.shadow.pop();
+            }
+            _ => {}
+        }
+        let real = save_snaps(ctx.screen);
+        if real != self.shadow {
+            let what = if real.len() != self.shadow.len() {
+                format!("depth {} but {} saves are outstanding", real.len(), self.shadow.len())
+            } else {
+                let i = (0..real.len()).find(|i| real[*i] != self.shadow[*i]).unwrap_or(0);
+                format!(
+                    "entry {} (0 = oldest) is now cursor (x={},y={}) {} but was saved as (x={},y={}) {}",
+                    i,
+                    real[i].x,
+                    real[i].y,
+                    crate::snap::cell_str(&real[i].attr),
+                    self.shadow[i].x,
+                    self.shadow[i].y,
+                    crate::snap::cell_str(&self.shadow[i].attr)
+                )
+            };
+            // keep following the real stack so that one defect is reported once
+            self.shadow = real;
+            return Err(Violation::new(
+                "C14",
+                format!("C14/stack_changed_by/{}", low.name()),
+                format!("the saved-cursor stack after {:?}: {}", ctx.op, what),
+                ctx.idx,
+            ));
+        }
+        Ok(())
+    }
+}
+
 /// screen copy with identity G0/G1 (for the translation twin)
 fn identity_copy(s: &Screen) -> Screen {
     let mut c = clone_screen(s);
@@ -454,13 +531,45 @@ impl<'a> Observer for StepObs<'a> {
     fn needs_snap(&self, _actor: Actor, op: &Op) -> bool {
         (self.sp.owns)(&op.lower())
     }
-    fn before(&mut self, _idx: u64, _actor: Actor, op: &Op, screen: &Screen) {
-        if self.sp.id == "C20" && matches!(op.lower(), Op::Draw(_)) {
-            self.pre_screen = Some(identity_copy(screen));
+    fn init(&mut self, screen: &Screen, _snap: &Snapshot) -> Result<(), Violation> {
+        if self.sp.id == "C20" {
+            self.twin = Some(identity_copy(screen));
         }
+        Ok(())
     }
     fn step(&mut self, ctx: &StepCtx) -> Result<(), Violation> {
         let low = ctx.op.lower();
+        // C20 translation twin: every operation also goes to the identity-table twin
+        let mut twin_draw: Option<(String, u64)> = None;
+        if let Some(tw) = self.twin.as_mut() {
+            match &low {
+                Op::DefineCharset(..) | Op::ShiftIn | Op::ShiftOut => {}
+                Op::Draw(text) => {
+                    let table = if ctx.pre.charset == 1 { &ctx.pre.g1 } else { &ctx.pre.g0 };
+                    let ti = which_table(table);
+                    if ti == 9 {
+                        // an installed table that equals no reference is DEFINE's finding
+                        self.cov.hit("stop_unknown_table_installed");
+                        self.twin = None;
+                    } else {
+                        let reft = tables::table(["B", "0", "U", "V"][ti as usize]).unwrap();
+                        let translated: String =
+                            text.chars().map(|c| if (c as u32) < 256 { reft[c as usize] } else { c }).collect();
+                        Op::Draw(translated.clone()).apply(tw);
+                        twin_draw = Some((translated, ti));
+                    }
+                }
+                _ => ctx.op.apply(tw),
+            }
+            if let Some(tw) = self.twin.as_mut() {
+                tw.g0_charset = tables::lat1();
+                tw.g1_charset = tables::lat1();
+                tw.charset = Charset::G0;
+            }
+        }
+        if self.sp.id == "C14" {
+            self.c14_shadow(ctx, &low)?;
+        }
         if !(self.sp.owns)(&low) {
             return Ok(());
         }
@@ -480,33 +589,19 @@ impl<'a> Observer for StepObs<'a> {
         // C20 judges draw by the translation twin only (placement is C04's)
         if self.sp.id == "C20" {
             if let Op::Draw(text) = &low {
-                let Some(mut twin) = self.pre_screen.take() else { return Ok(()) };
-                let table = if ctx.pre.charset == 1 { &ctx.pre.g1 } else { &ctx.pre.g0 };
-                // reference translation from the *reference* table that the designation history
-                // installed: identify the installed table by comparing with the references; an
-                // installed table that equals none of them is judged by DEFINE, not here
-                let ti = which_table(table);
-                if ti == 9 {
-                    self.cov.hit("stop_unknown_table_installed");
-                    return Ok(());
-                }
-                let reft = tables::table(["B", "0", "U", "V"][ti as usize]).unwrap();
-                let translated: String =
-                    text.chars().map(|c| if (c as u32) < 256 { reft[c as usize] } else { c }).collect();
-                // the twin has identity tables, so drawing the translated text must not translate
-                // again: code points < 256 in the *output* of translation pass through identity
-                Op::Draw(translated.clone()).apply(&mut twin);
-                let mut tw = Snapshot::take(&twin);
-                // restore the charset state for comparison
-                tw.g0 = ctx.post.g0;
-                tw.g1 = ctx.post.g1;
-                tw.charset = ctx.post.charset;
-                if let Some(d) = ctx.post.diff(&tw, &["dirty"]) {
+                let (Some(tw), Some((translated, ti))) = (self.twin.as_ref(), twin_draw) else { return Ok(()) };
+                let mut ts = Snapshot::take_from(tw, self.twin_prev.as_ref());
+                ts.g0 = ctx.post.g0;
+                ts.g1 = ctx.post.g1;
+                ts.charset = ctx.post.charset;
+                let d = ctx.post.diff(&ts, &["dirty", "savepoint_contents"]);
+                self.twin_prev = Some(ts);
+                if let Some(d) = d {
                     return Err(Violation::new(
                         self.sp.id,
                         format!("{}/draw/translation", self.sp.id),
                         format!(
-                            "draw({:?}) with G{} active ({}): result differs from drawing the reference translation {:?}: {}",
+                            "draw({:?}) with G{} active ({}): result differs from drawing the reference translation {:?} on a screen with identity tables: {}",
                             text,
                             ctx.pre.charset,
                             ["Latin-1", "DEC graphics", "CP437", "VAX42"][ti as usize],
@@ -569,7 +664,7 @@ impl Property for StepProp {
         gen::trace(self.id, seed, index, &p)
     }
     fn check(&self, trace: &Trace, cov: &mut Coverage) -> Result<(), Violation> {
-        let mut obs = StepObs { sp: self, cov, judged: 0, pre_screen: None, parser_charset_events: vec![] };
+        let mut obs = StepObs { sp: self, cov, judged: 0, twin: None, twin_prev: None, parser_charset_events: vec![], shadow: vec![] };
         let stats = exec::run(trace, &mut obs)?;
         let judged = obs.judged;
         let delivered = std::mem::take(&mut obs.parser_charset_events);
